@@ -27,8 +27,16 @@ def typed_event(e, variant, rng_seed):
     tc = [None, 'whole', 'ms', 'pre1970', 'ms', 'far', 'pre1970'][e] if e <= 6 else r.choice(['whole', 'ms', 'pre1970', 'far'])
     fc = [None, 'short', 'digits17', 'extreme', 'negzero', 'short', 'digits17'][e] if e <= 6 else r.choice(['short', 'digits17', 'extreme', 'negzero'])
     tag = 'E%dv%d' % (e, variant)
-    ident = {'plain': tag, 'comma': tag + ',a,b', 'quote': tag + '"q"x\'y', 'semi': tag + ';u; v', 'spacey': ' ' + tag + '  x ',
-             'long': (tag + '-' + 'L' * 300)[:255]}[idc]
+    if (e + variant) % 4 == 0:
+        # ids that look like numbers but are text: leading zeros, a sign, digit separators, exponent letters
+        idc = 'numeric'
+    num = 1000 * (variant % 50) + e
+    if idc == 'numeric':
+        ident = ['00%d' % num, '+%d' % num, '%d_%02d' % (2019 + variant % 5, e), '%de%d' % (e, 3 + variant % 4), '0x%x' % num,
+                 '%d.0' % num, '1_000%d' % e][(e * 3 + variant) % 7]
+    else:
+        ident = {'plain': tag, 'comma': tag + ',a,b', 'quote': tag + '"q"x\'y', 'semi': tag + ';u; v', 'spacey': ' ' + tag + '  x ',
+                 'long': (tag + '-' + 'L' * 300)[:255]}[idc]
     year = {'whole': r.randint(1971, 2100), 'ms': r.randint(1971, 2199), 'pre1970': r.randint(1900, 1969), 'far': r.randint(2107, 2199)}[tc]
     sec = calendar.timegm((year, r.randint(1, 12), r.randint(1, 28), r.randint(0, 23), r.randint(0, 59), r.randint(0, 59)))
     ms = sec * 1000 + (0 if tc == 'whole' else r.randint(1, 999))
